@@ -20,8 +20,8 @@ REPO = os.environ.get("VERIF_REPO", "/repo")
 sys.path.insert(0, os.path.join(VERIF, "lib"))
 import registry
 
-GOENV = dict(os.environ, GOFLAGS="-mod=mod", GOPROXY="off", GOSUMDB="off", GOTOOLCHAIN="local",
-             CGO_ENABLED="0")
+GOENV = dict(os.environ, GOFLAGS="-mod=mod", GOPROXY="off", GOSUMDB="off", GOTOOLCHAIN="local"
+            )
 GO = "go1.26.8"
 FORBIDDEN = re.compile(r"\b(Admitted|admit|Axiom|Axioms|Parameter|Parameters|Conjecture|Admit Obligations)\b"
                        r"|Unset\s+Guard|Unset\s+Positivity|Unset\s+Universe\s+Checking|bypass_check|type-in-type|impredicative-set")
